@@ -51,6 +51,7 @@ Section Step2.
     - assert (holder s = Some ByRun) by (apply (i_rpc _ _ _ I); auto). congruence.
     - assert (fsm_st s = FBooting) by (apply (i_boot _ _ _ I); auto). congruence.
     - assert (holder s = Some ByRun) by (apply (i_rpc _ _ _ I); auto). congruence.
+    - destruct (i_stopdone _ _ _ I _ Er) as (_ & H & _). congruence.
     - destruct (i_ret _ _ _ I) as ([H|H] & _); [left; eauto| |]; congruence.
     - destruct (i_ret _ _ _ I) as ([H|H] & _); [auto| |]; congruence.
   Qed.
@@ -60,7 +61,8 @@ Section Step2.
     intros I H. unfold step_core in H. destruct (crashed s); [discriminate|].
     destruct (kpc s) eqn:Ek; try discriminate. destruct (holder s) as [[|i]|] eqn:Eh; try discriminate.
     destruct (reload_rpc s i I Eh) as (Ef & Er).
-    destruct r as [| |c'].
+    destruct r as [| | |c'].
+    - injection H as <-. start I s. subst. destruct Er; subst rp; fin.
     - injection H as <-. start I s. subst. destruct Er; subst rp; fin.
     - injection H as <-. start I s. subst. destruct Er; subst rp; fin.
     - destruct (go_config_equal c' (cur s)); injection H as <-; start I s; subst; destruct Er; subst rp; fin.
@@ -92,7 +94,7 @@ Section Step2.
   Lemma step_stop_done s s' r od0 :
     Inv s -> stop_kpc (kpc s) ->
     (forall j sv, nth_error (servers s) j = Some sv -> s_shut sv = true) ->
-    stop_done (with_server s None od0) r = Some s' -> Inv s'.
+    stop_done stop_locked (with_server s None od0) r = Some s' -> Inv s'.
   Proof.
     intros I Hk Hall H. unfold stop_done in H. cbn [holder with_server] in H.
     assert (Hno : forall j sv, nth_error (servers s) j = Some sv -> s_shut sv = false -> False)
@@ -102,7 +104,10 @@ Section Step2.
       destruct (i_run _ _ _ I Eh) as [[_ Hb]|[Er _]]; [destruct (kpc s); contradiction|].
       assert (Hnr : fsm_st s <> FReloading).
       { intros E. destruct (i_reloading _ _ _ I E) as [i Hi]. congruence. }
-      destruct r.
+      assert (Hnrun : stop_locked = true -> fsm_st s <> FRunning) by (intros E; exact (i_locked _ _ _ I E Er)).
+      destruct stop_locked eqn:Esl.
+      { specialize (Hnrun eq_refl). injection H as <-. start I s; subst; fin; try (exfalso; eauto). }
+      unfold finish_stop in H. destruct r.
       + destruct (fsm_allowed (fsm_st (with_crit (with_server s None od0) None KFree)) FStopped) eqn:Ea; injection H as <-;
           start I s; subst; fin; try (exfalso; eauto).
       + injection H as <-. start I s; subst; fin; try (exfalso; eauto).
@@ -128,7 +133,7 @@ Section Step2.
 
   Lemma step_ShutdownRet_stop s s' sid r :
     Inv s -> kpc s = KStopWait sid -> r <> SNotRunning ->
-    stop_done (with_server s None (once_done s)) r = Some s' -> Inv s'.
+    stop_done stop_locked (with_server s None (once_done s)) r = Some s' -> Inv s'.
   Proof.
     intros I Ek Hr H.
     eapply step_stop_done; [exact I|rewrite Ek; exact Logic.I| |exact H].
@@ -181,16 +186,18 @@ Section Step2.
   Lemma step_ShutdownRet s s' sid r : Inv s -> step_core s (LShutdownRet sid r) = Some s' -> Inv s'.
   Proof.
     intros I H. unfold step_core in H. destruct (crashed s); [discriminate|].
+    destruct (sres_allowed (drain (cur s)) r) eqn:Eal; [|discriminate].
+    assert (Hnr : r <> SNotRunning) by (intros ->; discriminate).
     destruct (kpc s) eqn:Ek; try discriminate.
     - destruct (Nat.eqb sid sid0); [|discriminate].
-      destruct r; try discriminate; eapply step_ShutdownRet_stop; eauto; discriminate.
+      eapply step_ShutdownRet_stop; eauto.
     - destruct (Nat.eqb sid sid0); [|discriminate].
       assert (Hall : forall j sv, nth_error (servers s) j = Some sv -> s_shut sv = true).
       { intros j sv0 Hn. destruct (s_shut sv0) eqn:Es; [reflexivity|].
         destruct (i_live _ _ _ I j) as [Ho _]; [exists sv0; auto|].
         destruct (i_wait _ _ _ I sid0) as (Hs & sv1 & Hn1 & Hsh); [auto|].
         rewrite Ho in Hs. injection Hs as ->. congruence. }
-      destruct r; try discriminate; (eapply step_fail_boot; [exact I|rewrite Ek; exact Logic.I|exact Hall|exact H]).
+      eapply step_fail_boot; [exact I|rewrite Ek; exact Logic.I|exact Hall|exact H].
   Qed.
 
   Lemma step_BootReject s s' : Inv s -> step_core s LBootReject = Some s' -> Inv s'.
@@ -282,6 +289,23 @@ Section Step2.
     - apply (i_free _ _ _ I) in Eh. congruence.
   Qed.
 
+  Lemma step_RunFinishStop s s' : Inv s -> step_core s LRunFinishStop = Some s' -> Inv s'.
+  Proof.
+    intros I H. unfold step_core in H. destruct (crashed s); [discriminate|].
+    destruct (rpc s) eqn:Er; try discriminate. injection H as <-.
+    destruct (i_stopdone _ _ _ I _ Er) as (Hf & Hh & Hall).
+    assert (Hno : forall j sv, nth_error (servers s) j = Some sv -> s_shut sv = false -> False)
+      by (intros j sv0 H1 H2; rewrite (Hall j sv0 H1) in H2; discriminate).
+    assert (Hk : kpc s = KFree) by (now apply (i_free _ _ _ I)).
+    assert (Hnr : fsm_st s <> FReloading).
+    { intros E. destruct (i_reloading _ _ _ I E) as [i Hi]. congruence. }
+    unfold finish_stop. destruct r.
+    - destruct (fsm_allowed (fsm_st s) FStopped) eqn:Ea; start I s; subst; fin; try (exfalso; eauto).
+    - start I s; subst; fin; try (exfalso; eauto).
+    - start I s; subst; fin; try (exfalso; eauto).
+    - start I s; subst; fin; try (exfalso; eauto).
+  Qed.
+
   Lemma step_contra s s' l :
     (exists sid, l = LBindFail sid \/ l = LPushErr sid) \/ (exists a, l = LForeignFree a) ->
     Inv s -> step_core s l = Some s' -> Inv s'.
@@ -329,6 +353,8 @@ Section Step2.
     - intros Hr. destruct (i_early Hr) as (-> & _). destruct sid; discriminate.
     - intros Hr. destruct (i_ret Hr) as (A & B & C). split; [exact A|]. split; [exact B|].
       intros j x' Hn. destruct (T2 _ _ Hn) as (x & Hx & _ & Hs & _). rewrite Hs. eauto.
+    - intros r0 Hr. destruct (i_stopdone r0 Hr) as (A & B & C). split; [exact A|]. split; [exact B|].
+      intros j x' Hn. destruct (T2 _ _ Hn) as (x & Hx & _ & Hs & _). rewrite Hs. eauto.
     - intros j (x' & Hn & Hs). destruct (T2 _ _ Hn) as (x & Hx & _ & Hs' & _).
       apply i_live. exists x. split; congruence.
     - intros j Hj. destruct (i_srv j Hj) as [x Hx]. destruct (T1 _ _ Hx) as (x' & Hx' & _). eauto.
@@ -369,6 +395,8 @@ Section Step2.
     - intros Hr. destruct (i_early Hr) as (-> & _). destruct sid; discriminate.
     - intros Hr. destruct (i_ret Hr) as (A & B & C). split; [exact A|]. split; [exact B|].
       intros j x' Hn. destruct (T2 _ _ Hn) as (x & Hx & _ & Hs & _). rewrite Hs. eauto.
+    - intros r0 Hr. destruct (i_stopdone r0 Hr) as (A & B & C). split; [exact A|]. split; [exact B|].
+      intros j x' Hn. destruct (T2 _ _ Hn) as (x & Hx & _ & Hs & _). rewrite Hs. eauto.
     - intros j (x' & Hn & Hs). destruct (T2 _ _ Hn) as (x & Hx & _ & Hs' & _).
       apply i_live. exists x. split; congruence.
     - intros j Hj. destruct (i_srv j Hj) as [x Hx]. destruct (T1 _ _ Hx) as (x' & Hx' & _). eauto.
@@ -408,6 +436,7 @@ Section Step2.
     constructor; unfold unshut, is_reload; cbn; auto.
     - intros Hr. destruct (i_early Hr) as (-> & _). destruct sid; discriminate.
     - intros Hr. destruct (i_ret Hr) as (A & B & C). specialize (C sid sv0 Es). congruence.
+    - intros r0 Hr. destruct (i_stopdone r0 Hr) as (A & B & C). specialize (C sid sv0 Es). congruence.
     - intros j (x' & Hn & Hs). destruct (T2 _ _ Hn) as (x & Hx & _ & Hs' & _).
       apply i_live. exists x. split; congruence.
     - intros j Hj. destruct (i_srv j Hj) as [x Hx]. destruct (T1 _ _ Hx) as (x' & Hx' & _). eauto.
@@ -466,6 +495,7 @@ Section Step2.
     - split; intros; [contradiction|discriminate].
     - intros Hr. destruct (i_early Hr) as (_ & _ & E). contradiction.
     - intros Hr. destruct (i_ret Hr) as (_ & E & _). contradiction.
+    - intros r0 Hr. destruct (i_stopdone r0 Hr) as (_ & E & _). contradiction.
     - intros j (x & Hn & Hs). apply nth_snoc in Hn as [[_ Hn]|[-> ->]].
       + rewrite (Hall _ _ Hn) in Hs. discriminate.
       + auto.
@@ -506,6 +536,7 @@ Section Step2.
     - eapply step_RunWake; eauto.
     - eapply step_RunServeErr; eauto.
     - eapply step_RunLockStop; eauto.
+    - eapply step_RunFinishStop; eauto.
     - eapply step_RunRet; eauto.
     - eapply step_frame; eauto; exact Logic.I.
     - eapply step_frame; eauto; exact Logic.I.
